@@ -3,7 +3,8 @@
    `sensor_data[self.keep]` to an extracted numeric sensor (a 1-D numpy array) in SensorCache.get(select=True) /
    cache[name].  Definitions only.
 
-   numpy semantics modelled: a[mask] (length must agree, else IndexError), a[slice] (PySlice_AdjustIndices + range),
+   numpy semantics modelled: a[mask] (length must agree, else IndexError - except that an EMPTY boolean mask selects
+   nothing from an array of any length, a numpy special case), a[slice] (PySlice_AdjustIndices + range),
    a[int] (a scalar; negative indices wrap once; IndexError outside [-n, n)), a[[i, j, ...]] (fancy indexing with the
    same wrap / IndexError rule, result in the order of the index list, repeats allowed). *)
 From Coq Require Import ZArith List Bool.
@@ -67,7 +68,8 @@ Fixpoint k_all {A} (l : list (option A)) : option (list A) :=
 Definition apply_keep {A} (k : keep) (l : list A) : kres A :=
   let n := List.length l in
   match k with
-  | KpMask m => if Nat.eqb (List.length m) n then KrVals (select_mask m l) else KrIndexErr
+  | KpMask m => if Nat.eqb (List.length m) n || Nat.eqb (List.length m) 0
+                then KrVals (select_mask m l) else KrIndexErr
   | KpSlice a b s =>
       match k_positions n a b s with
       | None => KrValueErr
